@@ -471,8 +471,8 @@ DRIVE = {
     "pfokKeypairGen": D({}, 1, flags=["ok_params"]),
     "pfokPubkeyVal": D({}, 0, flags=["ok_params"], hand=[("ok_pubkey", "a.ok_pubkey = 1", "ERR_ANY", "\\return ERR_OK iff the key is valid")]),
     "pfokPubkeyCalc": D({}, 1, flags=["ok_params", "ok_privkey"]),
-    "pfokDH": D({}, 1, flags=["ok_params", "ok_privkey", "ok_pubkey"]),
-    "pfokMTI": D({}, 1, flags=["ok_params", "ok_privkey", "ok_pubkey"]),
+    "pfokDH": D({"n": 256}, 1, flags=["ok_params", "ok_privkey", "ok_pubkey"], extra={"n": [255, 250, 13, 1]}),
+    "pfokMTI": D({"n": 256}, 1, flags=["ok_params", "ok_privkey", "ok_pubkey"], extra={"n": [255, 250, 13, 1]}),
     "stb99ParamsVal": D({}, 0, hand=[("ok_params", "a.ok_params = 1", "ERR_ANY", "\\return ERR_OK iff the parameters are valid")]),
 }
 
